@@ -1497,7 +1497,7 @@ impl ConnectionHandler for VarlinkService {
                     let method: String = String::from(req.method.as_ref());
                     let mut call = Call::new(writer, &req);
                     call.reply_interface_not_found(Some(method))?;
-                    return Ok((Vec::new(), None));
+                    continue;
                 }
                 Some(x) => x,
             };
